@@ -1,6 +1,7 @@
 package main
 
 import (
+	"go/token"
 	"go/types"
 	"reflect"
 	"sort"
@@ -227,6 +228,7 @@ func checkC10(c *Check) {
 		c.Ob("R3", "every manifest group must name an on-chain group", vgs.Pos(), name, "")
 		c.Ob("R3", "every group pair is cross-validated and a failure rejects", vgs.Pos(), each, "")
 	}
+	c.uniqueNamesRule("R3", "validation", "", "validateManifestGroups")
 	c.Floor("R3", 9)
 }
 
@@ -358,4 +360,148 @@ func (c *Check) manifestVersionRule(rule string) {
 		c.Ob(rule, "every received version update is recorded, unconditionally", pos, okEvery, why)
 	}
 
+}
+
+// uniqueNamesRule: a "duplicate" rejection that relies on a set of names seen so far is only as good as the set: on
+// every path of an iteration that does not reject, the element's name is entered under the key that is looked up.
+// A rejection that instead compares an element with its neighbour (index i against i-1) is reported: it misses
+// repeated names that are not adjacent. Any other form is not decided (information only).
+// Shared: C10-R3 (manifest groups; the cross-validation matches groups by name and relies on uniqueness),
+// C19-R2 (deployment groups).
+func (c *Check) uniqueNamesRule(rule, rel, recv, name string) {
+	l := c.L
+	fn := l.Func(rel, recv, name)
+	c.Analysed(fnName(fn))
+	n := 0
+	for _, g := range fnAndClosuresDeep(fn) {
+		for _, b := range g.Blocks {
+			r, isR := b.Instrs[len(b.Instrs)-1].(*ssa.Return)
+			if !isR || len(r.Results) == 0 {
+				continue
+			}
+			es := Sym(r.Results[len(r.Results)-1])
+			if !strings.Contains(strings.ToLower(es), "duplicate") {
+				continue
+			}
+			n++
+			decided := false
+			for _, a := range factsAt(b) {
+				// (1) set membership
+				if a.Op == "true" {
+					if ex, isEx := a.X.(*ssa.Extract); isEx && ex.Index == 1 {
+						if lk, isLk := ex.Tuple.(*ssa.Lookup); isLk {
+							if _, isMap := lk.X.Type().Underlying().(*types.Map); isMap {
+								decided = true
+								h := loopHeaderOf(lk.Block())
+								okUpd := false
+								why := "the set of names seen is never extended with the looked-up key"
+								if h != nil {
+									pred := func(in ssa.Instruction) bool {
+										mu, isMU := in.(*ssa.MapUpdate)
+										return isMU && Sym(mu.Map) == Sym(lk.X) && Sym(mu.Key) == Sym(lk.Index)
+									}
+									// from the not-found edge back to the loop header
+									if ifi := a.If; ifi != nil {
+										nf := ifi.Block().Succs[1]
+										if at := condAtom(ifi.Cond, true); at.Op == "false" {
+											nf = ifi.Block().Succs[0] // negated condition: the true edge is the not-found edge
+										}
+										okUpd = pred(nf.Instrs[0]) || mustPassFrom(g, nf.Instrs[0], h.Instrs[0], pred)
+										if !okUpd {
+											why = "an iteration can finish without entering the element's name into the set: a later element with that name is not recognised as a repeat"
+										}
+									}
+								}
+								c.Ob(rule, fnName(fn)+": every accepted element's name is entered into the set the duplicate test consults", lk.Pos(), okUpd, why)
+							}
+						}
+					}
+				}
+				// (2) neighbour comparison
+				if a.Op == "eq" && a.Y != nil {
+					ix, iy := elemIndexOf(a.X), elemIndexOf(a.Y)
+					if ix != nil && iy != nil && ix.base != nil && ix.base == iy.base && ix.slice == iy.slice && ix.off != iy.off {
+						decided = true
+						c.Ob(rule, fnName(fn)+": the duplicate test compares every pair of names", r.Pos(), false, "an element is only compared with the element "+itoa(int(abs64(ix.off-iy.off)))+" position(s) away: repeated names that are not adjacent are accepted")
+					}
+				}
+			}
+			if !decided {
+				c.Info(rule, fnName(fn)+": form of the duplicate test not recognised, uniqueness not decided", r.Pos(), short(es))
+			}
+		}
+	}
+	if n == 0 {
+		c.Ob(rule, fnName(fn)+": duplicate names are rejected", fn.Pos(), false, "no rejecting exit that mentions duplicates")
+	}
+}
+
+type elemIdx struct {
+	slice string
+	base  ssa.Value
+	off   int64
+}
+
+func abs64(x int64) int64 {
+	if x < 0 {
+		return -x
+	}
+	return x
+}
+
+// elemIndexOf: v reads (a field / getter of) slice element s[base+off]; nil otherwise.
+func elemIndexOf(v ssa.Value) *elemIdx {
+	for d := 0; d < 8 && v != nil; d++ {
+		switch x := v.(type) {
+		case *ssa.Call:
+			if len(x.Call.Args) == 0 {
+				return nil
+			}
+			v = x.Call.Args[0]
+		case *ssa.Field:
+			v = x.X
+		case *ssa.FieldAddr:
+			v = x.X
+		case *ssa.UnOp:
+			if a, isA := x.X.(*ssa.Alloc); isA {
+				// a spilled copy of the element
+				var src ssa.Value
+				n := 0
+				for _, r := range *a.Referrers() {
+					if st, isSt := r.(*ssa.Store); isSt && st.Addr == ssa.Value(a) {
+						src = st.Val
+						n++
+					}
+				}
+				if n != 1 {
+					return nil
+				}
+				v = src
+				continue
+			}
+			v = x.X
+		case *ssa.IndexAddr:
+			base, off := x.Index, int64(0)
+			for {
+				bo, ok := base.(*ssa.BinOp)
+				if !ok {
+					break
+				}
+				if k, isK := constInt(bo.Y); isK && (bo.Op == token.ADD || bo.Op == token.SUB) {
+					if bo.Op == token.ADD {
+						off += k
+					} else {
+						off -= k
+					}
+					base = bo.X
+					continue
+				}
+				break
+			}
+			return &elemIdx{slice: Sym(x.X), base: base, off: off}
+		default:
+			return nil
+		}
+	}
+	return nil
 }
